@@ -39,6 +39,7 @@ type methodInfo struct {
 	selfCalls  []string
 	fieldCalls []string // method names called on receiver fields
 	writes     bool
+	wfields    map[string]bool // receiver fields this method writes itself
 }
 
 var methods = map[string]*methodInfo{} // "Type.method"
@@ -175,6 +176,12 @@ func analyseBody(p *packages.Package, body *ast.BlockStmt, recv string, mi *meth
 			sub := &methodInfo{}
 			analyseBodyFor(p, body, a, sub)
 			mi.direct = mi.direct || sub.direct
+			for f := range sub.wfields {
+				if mi.wfields == nil {
+					mi.wfields = map[string]bool{}
+				}
+				mi.wfields[f] = true
+			}
 			mi.selfCalls = append(mi.selfCalls, sub.selfCalls...)
 			mi.fieldCalls = append(mi.fieldCalls, sub.fieldCalls...)
 		}
@@ -183,9 +190,18 @@ func analyseBody(p *packages.Package, body *ast.BlockStmt, recv string, mi *meth
 }
 
 func analyseBodyFor(p *packages.Package, body *ast.BlockStmt, recv string, mi *methodInfo) {
+	noteField := func(f string) {
+		if mi.wfields == nil {
+			mi.wfields = map[string]bool{}
+		}
+		if f != "" {
+			mi.wfields[f] = true
+		}
+	}
 	writeTo := func(e ast.Expr) {
-		if _, ok := recvField(e, recv); ok {
+		if f, ok := recvField(e, recv); ok {
 			mi.direct = true
+			noteField(f)
 		}
 		if ix, ok := e.(*ast.IndexExpr); ok && isRecvItself(ix.X, recv) {
 			mi.direct = true // v[i] = x on a slice / map receiver
@@ -201,8 +217,9 @@ func analyseBodyFor(p *packages.Package, body *ast.BlockStmt, recv string, mi *m
 			writeTo(x.X)
 		case *ast.CallExpr:
 			if id, ok := x.Fun.(*ast.Ident); ok && (id.Name == "delete" || id.Name == "clear" || id.Name == "copy") && len(x.Args) > 0 {
-				if _, ok := recvField(x.Args[0], recv); ok || isRecvItself(x.Args[0], recv) {
+				if f, ok := recvField(x.Args[0], recv); ok || isRecvItself(x.Args[0], recv) {
 					mi.direct = true
+					noteField(f)
 				}
 			}
 			sel, ok := x.Fun.(*ast.SelectorExpr)
@@ -227,6 +244,7 @@ func analyseBodyFor(p *packages.Package, body *ast.BlockStmt, recv string, mi *m
 							_, isIface := ft.Underlying().(*types.Interface)
 							if ptrRecv && !isPtr && !isIface {
 								mi.direct = true
+								noteField(f)
 								return true
 							}
 						}
@@ -316,6 +334,18 @@ func genSharing() string {
 						}
 						written, guarded := varAccess(p, obj)
 						rows = append(rows, row{holder: "var " + p.Name + "." + n.Name, via: kind, target: "direct", writes: written, guarded: guarded})
+						if tn, ok := obj.Type().(*types.Named); ok && tn.Obj().Pkg() != nil && tn.Obj().Pkg().Path() == "sync" && tn.Obj().Name() == "Pool" {
+							rows = append(rows, poolRows(p, obj, n.Name)...)
+						}
+						// an interface-typed variable holds one object for everybody: no exported method of any type of
+						// this module that can stand behind it may write
+						if _, ok := obj.Type().Underlying().(*types.Interface); ok {
+							for k, m := range methods {
+								if ast.IsExported(m.name) && implementsByName(m.typ, obj.Type()) {
+									rows = append(rows, row{holder: "var " + p.Name + "." + n.Name, via: "method", target: k, writes: m.writes, guarded: false})
+								}
+							}
+						}
 						// a class object: its fields are handled below; its own methods must not write
 						if ptr, ok := obj.Type().(*types.Pointer); ok {
 							tn := typeName(ptr.Elem())
@@ -542,6 +572,20 @@ func varAccess(p *packages.Package, obj types.Object) (written bool, guarded boo
 						if id, ok := x.Fun.(*ast.Ident); ok && (id.Name == "delete" || id.Name == "clear") && len(x.Args) > 0 && rootIdentIs(q, x.Args[0], obj) {
 							written = true
 						}
+						// x.M(...) on the variable where M belongs to a type of another module and has a pointer receiver:
+						// the object's own state may change (math/rand.Rand, bytes.Buffer, ...) unless the type synchronises itself
+						if sel, ok := x.Fun.(*ast.SelectorExpr); ok && rootIdentIs(q, sel.X, obj) {
+							if s := q.TypesInfo.Selections[sel]; s != nil {
+								if fn, ok := s.Obj().(*types.Func); ok && fn.Pkg() != nil && !strings.Contains(fn.Pkg().Path(), "go-collection-framework") {
+									sig := fn.Type().(*types.Signature)
+									if sig.Recv() != nil {
+										if _, ptrRecv := sig.Recv().Type().(*types.Pointer); ptrRecv && !selfSynchronised(sig.Recv().Type()) {
+											written = true
+										}
+									}
+								}
+							}
+						}
 					}
 					return true
 				})
@@ -579,6 +623,124 @@ func varAccess(p *packages.Package, obj types.Object) (written bool, guarded boo
 		guarded = false
 	}
 	return
+}
+
+// selfSynchronised: types of the standard library whose methods may be called concurrently
+func selfSynchronised(t types.Type) bool {
+	if p, ok := t.(*types.Pointer); ok {
+		t = p.Elem()
+	}
+	n, ok := t.(*types.Named)
+	if !ok || n.Obj().Pkg() == nil {
+		return false
+	}
+	switch n.Obj().Pkg().Path() {
+	case "sync", "sync/atomic":
+		return true
+	}
+	return false
+}
+
+// poolRows: a package-level sync.Pool recycles objects between calls (and goroutines).  An object taken from it still
+// carries what the previous user left in every field that its methods write; the taking function must assign all of
+// those fields before it calls a method on the object.  A row with writes = true, guarded = false is emitted otherwise.
+func poolRows(p *packages.Package, obj types.Object, name string) []row {
+	var rows []row
+	for _, f := range p.Syntax {
+		if isTestFile(p, f) {
+			continue
+		}
+		for _, d := range f.Decls {
+			fd, ok := d.(*ast.FuncDecl)
+			if !ok || fd.Body == nil {
+				continue
+			}
+			owner := fd.Name.Name
+			if fd.Recv != nil && len(fd.Recv.List) > 0 {
+				owner = recvTypeName(fd.Recv.List[0].Type) + "." + owner
+			}
+			// locals bound to pool.Get().(*T)
+			ast.Inspect(fd.Body, func(n ast.Node) bool {
+				var lhs []ast.Expr
+				var rhs []ast.Expr
+				switch x := n.(type) {
+				case *ast.AssignStmt:
+					lhs, rhs = x.Lhs, x.Rhs
+				case *ast.ValueSpec:
+					for _, nm := range x.Names {
+						lhs = append(lhs, nm)
+					}
+					rhs = x.Values
+				default:
+					return true
+				}
+				for i, r := range rhs {
+					if i >= len(lhs) {
+						break
+					}
+					ta, ok := r.(*ast.TypeAssertExpr)
+					if !ok {
+						continue
+					}
+					call, ok := ta.X.(*ast.CallExpr)
+					if !ok {
+						continue
+					}
+					sel, ok := call.Fun.(*ast.SelectorExpr)
+					if !ok || sel.Sel.Name != "Get" || !rootIdentIs(p, sel.X, obj) {
+						continue
+					}
+					id, ok := lhs[i].(*ast.Ident)
+					if !ok {
+						continue
+					}
+					tn := typeName(p.TypesInfo.TypeOf(ta))
+					// every field that some method of the type writes
+					need := map[string]bool{}
+					for _, m := range methods {
+						if m.typ == tn {
+							for fl := range m.wfields {
+								need[fl] = true
+							}
+						}
+					}
+					// fields assigned on the local before the first method call on it
+					firstCall := token.Pos(0)
+					ast.Inspect(fd.Body, func(n ast.Node) bool {
+						if c, ok := n.(*ast.CallExpr); ok && c.Pos() > r.End() {
+							if s2, ok := c.Fun.(*ast.SelectorExpr); ok {
+								if x2, ok := s2.X.(*ast.Ident); ok && x2.Name == id.Name && (firstCall == 0 || c.Pos() < firstCall) {
+									firstCall = c.Pos()
+								}
+							}
+						}
+						return true
+					})
+					ast.Inspect(fd.Body, func(n ast.Node) bool {
+						if a, ok := n.(*ast.AssignStmt); ok && a.Pos() > r.End() && (firstCall == 0 || a.Pos() < firstCall) {
+							for _, l := range a.Lhs {
+								if s2, ok := l.(*ast.SelectorExpr); ok {
+									if x2, ok := s2.X.(*ast.Ident); ok && x2.Name == id.Name {
+										delete(need, s2.Sel.Name)
+									}
+								}
+							}
+						}
+						return true
+					})
+					var left []string
+					for fl := range need {
+						left = append(left, fl)
+					}
+					sort.Strings(left)
+					rows = append(rows, row{holder: "var " + p.Name + "." + name, via: "recycled " + tn + " taken in " + owner,
+						target: "fields not reassigned: " + strings.Join(left, ","), writes: len(left) > 0, guarded: false})
+				}
+				return true
+			})
+		}
+	}
+	return rows
 }
 
 func rootIdentIs(p *packages.Package, e ast.Expr, obj types.Object) bool {
